@@ -7,17 +7,27 @@ from checks.c04 import consts
 from checks.c08 import ALL_OPS, complaints_to_violations
 
 
+# operations that copy or move elements between two existing arrays (three-step histories: make two arrays, then the operation)
+NM_OPS = ["ctor_iota", "ctor_fill", "ctor_copy", "ctor_move", "assign_copy", "assign_move", "assign_view", "assign_other", "assign_range",
+          "ref_assign", "ref_assign_move", "swap", "reextent", "reextent_fill"]
+
+
 def run(tier):
     rep = vlib.Report("C09", tier)
     wd = vlib.workdir("c09")
     exe_trk = arrays.build(wd, 2)
-    plan = [("c09_d1", consts(1, 2, 3, False, ALL_OPS)), ("c09_d2", consts(2, 2, 2, False, ALL_OPS))]
+    # the same element with noexcept moves that cannot fail and copies that can (like std::string): exposes code whose
+    # exception specification follows the move although it copies
+    exe_nm = arrays.build(wd, 2, name="replay_arrays_2nm", extra_flags=["-DVERIF_TRACKED_NOEXCEPT_MOVE"])
+    d0ops = ["ctor_default", "ctor_ext", "ctor_fill", "ctor_copy", "ctor_move", "assign_copy", "assign_move", "self_assign", "swap", "write", "destroy"]
+    plan = [("c09_d1", consts(1, 2, 3, False, ALL_OPS), exe_trk), ("c09_d2", consts(2, 2, 2, False, ALL_OPS), exe_trk),
+            ("c09_d1_nm", consts(1, 2, 3, False, NM_OPS), exe_nm), ("c09_d2_nm", consts(2, 2, 2, False, ALL_OPS), exe_nm)]
     if tier == "thorough":
-        plan += [("c09_d1_deep", consts(1, 2, 3, False, ALL_OPS)), ("c09_d2_deep", consts(2, 2, 3, False, ALL_OPS)),
-                 ("c09_d3", consts(3, 2, 2, False, ALL_OPS))]
+        plan += [("c09_d1_deep", consts(1, 2, 3, False, ALL_OPS), exe_trk), ("c09_d2_deep", consts(2, 2, 3, False, ALL_OPS), exe_trk),
+                 ("c09_d3", consts(3, 2, 2, False, ALL_OPS), exe_trk), ("c09_d1_nm_deep", consts(1, 2, 3, False, ALL_OPS), exe_nm)]
     events = faulted = 0
-    for name, c in plan:
-        traces = arrays.run_config(rep, "C09", name, c, exe_trk, wd, len(c["Slots"]), trace=True, faults=True, judge_values=False)
+    for name, c, exe_used in plan:
+        traces = arrays.run_config(rep, "C09", name, c, exe_used, wd, len(c["Slots"]), trace=True, faults=True, judge_values=False)
         obs = rep.notes.get("_last_obs", {})
         faulted += sum(int(o.get("points_last", 0)) for o in obs.values() if isinstance(o, dict))
         comps, states = vlib.validate_traces("Lifecycle", "MSpec", traces, name + "_mon")
